@@ -125,6 +125,16 @@ func main() {
 			res.Fatalf("scenario %d aborted: %v", s, err)
 		}
 	}
+	// old blocks (pre-0.13.2 headers with missing fields): two little chains of their own
+	for k := 0; k < h.f.Scale(2, 12); k++ {
+		sc := 1000 + k
+		if only != nil && *only != sc {
+			continue
+		}
+		if err := h.legacyHeaders(sc, root.Fork(uint64(sc))); err != nil {
+			res.Fatalf("legacy-header chain %d aborted: %v", sc, err)
+		}
+	}
 	res.SetExtra("programs", len(h.programs))
 	res.SetExtra("disagreements_checked", h.checked)
 	lib.Finish(h.f, res)
@@ -164,6 +174,9 @@ func (h *harness) scenario(s int, r *lib.RNG, sp scenarioParams) error {
 			return err
 		}
 		lines = append(lines, fmt.Sprintf("l1 %x", *w.l1))
+		if err := h.snapshot(s, w, &lines); err != nil {
+			return err
+		}
 		if err := doRound(); err != nil {
 			return err
 		}
@@ -259,6 +272,9 @@ func (h *harness) scenario(s int, r *lib.RNG, sp scenarioParams) error {
 			}
 		}
 		w.traceSlot(op)
+		if err := h.snapshot(s, w, &lines); err != nil {
+			return err
+		}
 		if op == sp.exhaustAt {
 			// the whole small space: every id x every method x every index / hash / address / slot / class
 			if err := doQueries(w.exhaustive()); err != nil {
@@ -270,6 +286,15 @@ func (h *harness) scenario(s int, r *lib.RNG, sp scenarioParams) error {
 			if err := doRound(); err != nil {
 				return err
 			}
+		}
+	}
+	if w.height() > 0 && (sp.short || s == 0) {
+		// flush pending chain operations to the model first (shapes asks the driver directly)
+		if err := doQueries(nil); err != nil {
+			return err
+		}
+		if err := h.shapes(s, w); err != nil {
+			return err
 		}
 	}
 	h.res.HitN("tx:reverted-then-included-again", w.reincluded)
@@ -284,6 +309,9 @@ func (h *harness) scenario(s int, r *lib.RNG, sp scenarioParams) error {
 			}
 			lines = append(lines, "revert")
 			h.res.Hit("op:revert")
+			if err := h.snapshot(s, w, &lines); err != nil {
+				return err
+			}
 			if w.height() == 1 || w.height() == 0 {
 				if err := doRound(); err != nil {
 					return err
@@ -306,6 +334,19 @@ func isStateMethod(m string) bool {
 // queryRound generates the queries of a checkpoint, asks the model, asks every node on every
 // version, and compares.
 func (h *harness) queryRound(s, round int, w *world, r *lib.RNG, sp scenarioParams, pending *[]string, qs []*query) error {
+	// a hash that was once put into the submitted-transactions caches stays there
+	if w.submitted == nil {
+		w.submitted = map[felt.Felt]bool{}
+	}
+	for _, q := range qs {
+		if q.method == "txStatus" && q.nullPos == "" {
+			if q.submitted {
+				w.submitted[q.txHash] = true
+			} else if w.submitted[q.txHash] {
+				q.submitted = true
+			}
+		}
+	}
 	// model answers: pending chain operations first, then one line per (query, version)
 	lines := append([]string{}, *pending...)
 	nOps := len(lines)
@@ -322,8 +363,8 @@ func (h *harness) queryRound(s, round int, w *world, r *lib.RNG, sp scenarioPara
 	}
 	var answers []string
 	var err error
-	if !lib.WithDeadline(3*time.Minute, func() { answers, err = h.drv.AskAll(lines) }) {
-		h.res.Fatalf("the Lean driver did not answer %d lines within 3 minutes (scenario %d round %d)", len(lines), s, round)
+	if !lib.WithDeadline(20*time.Minute, func() { answers, err = h.drv.AskAll(lines) }) {
+		h.res.Fatalf("the Lean driver did not answer %d lines within 20 minutes (scenario %d round %d)", len(lines), s, round)
 		lib.Finish(h.f, h.res)
 	}
 	if err != nil {
@@ -335,9 +376,32 @@ func (h *harness) queryRound(s, round int, w *world, r *lib.RNG, sp scenarioPara
 		}
 	}
 	for i := 0; i < nOps; i++ {
+		if lines[i] == "dump" {
+			// store-level correspondence: the picture of each node's database taken right after the
+			// operation against the model's buckets at the same point of the history
+			if len(w.dumps) == 0 {
+				h.res.Fatalf("a model dump without a database picture (scenario %d round %d)", s, round)
+				continue
+			}
+			pd := w.dumps[0]
+			w.dumps = w.dumps[1:]
+			for ni, real := range pd.real {
+				h.res.Compared(1)
+				if real != answers[i] {
+					section, what := dumpDiff(answers[i], real)
+					h.res.Mismatch(lib.Mismatch{Sig: "model-store-level:" + section + ":" + what + ":after-" + pd.op,
+						Input: map[string]any{"backend": backendName[ni], "history": pd.history}, Model: answers[i], Impl: real})
+				}
+			}
+			continue
+		}
 		if answers[i] != "ok" {
 			h.res.Mismatch(lib.Mismatch{Sig: "model-rejects-chain-operation", Input: lines[i], Model: answers[i], Impl: "ok"})
 		}
+	}
+	if len(w.dumps) != 0 {
+		h.res.Fatalf("%d database pictures were never compared with the model (scenario %d round %d)", len(w.dumps), s, round)
+		w.dumps = nil
 	}
 	model := map[slot]string{}
 	for i, sl := range slots {
@@ -356,6 +420,7 @@ func (h *harness) queryRound(s, round int, w *world, r *lib.RNG, sp scenarioPara
 			exps[vi] = exp
 			got[vi] = make([]string, len(w.nodes))
 			for ni, node := range w.nodes {
+				node.setFeeder(q)
 				resp := node.call(ver, rpcName[q.method], q.params(ver))
 				line, obj := h.lineOf(w, q, resp)
 				got[vi][ni] = line
@@ -373,6 +438,15 @@ func (h *harness) queryRound(s, round int, w *world, r *lib.RNG, sp scenarioPara
 					h.res.Hit("answer:v8-pending-synthetic-block")
 				} else {
 					h.res.Hit("answer:" + answerClass(line))
+				}
+				if q.feeder != nil {
+					h.res.Hit("feeder:" + q.feeder.lean())
+				}
+				if q.submitted {
+					h.res.Hit("feeder:hash-in-submitted-cache")
+				}
+				if q.flags != nil {
+					h.res.Hit("flags:" + q.flags.name + ":" + flagsVerdict(ver, q.method, q.flags))
 				}
 				if q.named {
 					h.res.Hit("params:by-name")
@@ -616,6 +690,12 @@ func (h *harness) violate(c *caseCtx, exp expectation, got, model string, resp r
 	// Lean model — which transcribes each known cause — predicts for this very request; any other
 	// divergence on the same kind of input keeps the generic signature (and is a model mismatch).
 	asModel := got == model
+	if q.flags != nil && q.method == "storage" && flagsVerdict(c.ver, q.method, q.flags) == "set" {
+		// getStorageAt with the flag on IS the last-update form of the request
+		lu := *q
+		lu.method, lu.flags = "storageLU", nil
+		q = &lu
+	}
 	hasNull := q.nullPos != "" || (q.id != nil && q.id.tag == "null")
 	want := exp.lines[0]
 	switch {
